@@ -1,23 +1,113 @@
 ------------------------------ MODULE MiniPyTrace ------------------------------
-(* Trace specification for C01.  One line per execution of a generated function:                     *)
-(*   {tid, tx, ty, prog, evals: [[node index, runtime value (object term), inferred type (type term)], ...]} *)
-(* recorded by instrumented execution under CPython; the inferred types are read from the tree       *)
-(* annotated by the real checker.  Accepted iff every evaluated node's value is a member of its      *)
-(* inferred type (a node inferred as Never therefore must not appear).                               *)
+(* Trace specification for C01.  One line per execution of a generated function:                                  *)
+(*   {tid, nodes: [node facts], stores: [assignment sites], ev: [events]}   (see MiniPy.tla, "Acceptance")        *)
+(* recorded by instrumented execution under CPython; the inferred types are read from the tree annotated by the    *)
+(* real checker.  Accepted iff every judged evaluation's value is a member of its inferred type (a node inferred   *)
+(* as Never therefore must not appear).  An unsound event is filed under a known-deviation class only if the       *)
+(* mechanism of that class, replayed over the events of this execution, explains this event:                       *)
+(*   taint[var]   classes whose mechanism mis-narrowed / mis-typed the value now held by var (dynamic data flow:   *)
+(*                set at the mis-predicted test, copied by assignments, cleared by a clean assignment)             *)
+(*   cc / stamp / it   loop-carry bookkeeping of MiniPy!Dev_LoopCarried                                            *)
+(*   last / linf  last value / inferred type of every node (operands of the node being judged)                     *)
+(*   hot          <<class, node>>: nodes of the statement being executed whose own result is mis-typed by the      *)
+(*                mechanism of that class (tuple add; an expression the checker rejected with an error)            *)
+(* Lines with a field "pairs" carry distinct (value, inferred type) pairs only: every judged event is first        *)
+(* judged through its pair; executions with an unsound pair are then replayed in full.                             *)
 EXTENDS MiniPy, Json, IOUtils
 
 Obs == ndJsonDeserialize(IOEnv.TRACE_FILE)
 VARIABLE l
 Say(tid, v) == PrintT(<<"VERDICT", tid, v>>)
 
-Judge(o) ==
-    \A i \in 1..Len(o.evals) :
-        LET e == [node |-> o.evals[i][1], val |-> o.evals[i][2], inferred |-> o.evals[i][3]]
-            cls == DevClass(o)
-        IN IF Sound(e) THEN TRUE
-           ELSE IF cls # "none" THEN Say(o.tid, "dev:" \o cls)
-           ELSE IF e.inferred = Never THEN Say(o.tid, "viol:NeverIsNeverReached:" \o ToString(i))
-           ELSE Say(o.tid, "viol:Sound:" \o ToString(i))
+St0(N) == [taint |-> [vn \in VarNames |-> {}], cc |-> [vn \in VarNames |-> 0],
+           stamp |-> [vn \in VarNames |-> [L \in LoopIds |-> 0]], it |-> [L \in LoopIds |-> 0],
+           last |-> [i \in 1..N |-> NoObj], linf |-> [i \in 1..N |-> NoT], hot |-> {}, stmt |-> 0, matched |-> {}]
+
+Known2(a, b) == a # NoObj /\ b # NoObj
+MaxOf(S) == IF S = {} THEN 0 ELSE CHOOSE m \in S : \A k \in S : k <= m
+
+\* variables whose narrowing the event of node nd (value val) mis-predicts, per class
+NumericSource(st, nd, val) ==
+    \/ /\ nd.fn = "isinstance" /\ Len(nd.ch) >= 1 /\ st.last[nd.ch[1]] # NoObj
+       /\ Dev_NumericMispredict(st.last[nd.ch[1]], SeqToSet(nd.cls))
+    \/ \E p \in 1..Len(nd.pats) : \E q \in 1..Len(nd.pats[p].cls) : \E so \in SubObjs(val) :
+          Dev_NumericMispredict(so, SeqToSet(nd.pats[p].cls[q]))
+CrossEqSource(st, nd, val) ==
+    \/ /\ nd.k = "Compare" /\ Len(nd.ch) = Len(nd.op) + 1
+       /\ \E i \in 1..Len(nd.op) : /\ Known2(st.last[nd.ch[i]], st.last[nd.ch[i + 1]])
+                                   /\ CrossEqTest(nd.op[i], st.last[nd.ch[i]], st.last[nd.ch[i + 1]])
+    \/ \E p \in 1..Len(nd.pats) : \E q \in 1..Len(nd.pats[p].lits) : \E so \in SubObjs(val) : CrossEq(so, nd.pats[p].lits[q])
+TupleAddSource(st, nd, ev) ==
+    /\ nd.k = "BinOp" /\ nd.op = <<"+">> /\ Len(nd.ch) = 2 /\ ev.j
+    /\ Known2(st.last[nd.ch[1]], st.last[nd.ch[2]])
+    /\ Dev_TupleAddDropsLeft(st.last[nd.ch[1]], st.last[nd.ch[2]], ev.v, ev.i)
+
+\* state after the evaluation event ev of node nd
+AfterEval(st, ev, nd) ==
+    LET st1 == IF nd.s # st.stmt THEN [st EXCEPT !.hot = {}, !.stmt = nd.s] ELSE st
+        add == (IF NumericSource(st1, nd, ev.v) THEN {KeyNumeric} ELSE {}) \cup (IF CrossEqSource(st1, nd, ev.v) THEN {KeyCrossEq} ELSE {})
+        rd == SeqToSet(nd.r)
+    IN [st1 EXCEPT !.last[ev.n] = ev.v, !.linf[ev.n] = ev.i,
+                   !.taint = [vn \in VarNames |-> IF vn \in rd THEN @[vn] \cup add ELSE @[vn]],
+                   !.hot = @ \cup (IF TupleAddSource(st1, nd, ev) THEN {<<KeyTupleAdd, ev.n>>} ELSE {})
+                             \cup (IF nd.err THEN {<<KeyRejected, ev.n>>} ELSE {})]
+
+HotKeys(st, S) == {h[1] : h \in {hh \in st.hot : hh[2] \in S}}
+NodeTaint(st, nd, ni) == UNION {st.taint[r] : r \in SeqToSet(nd.r)} \cup HotKeys(st, SeqToSet(nd.d) \cup {ni})
+
+\* state after the assignment site s completed
+AfterStore(st, s) ==
+    LET rd == SeqToSet(s.r)
+        tn == UNION {st.taint[r] : r \in rd} \cup (IF s.n > 0 THEN HotKeys(st, {s.n} \cup SeqToSet(s.d)) ELSE {})
+        c == MaxOf({Carry(st, r) : r \in rd})
+        names == SeqToSet(s.names)
+    IN [st EXCEPT !.taint = [vn \in VarNames |-> IF vn \in names THEN tn ELSE @[vn]],
+                  !.cc = [vn \in VarNames |-> IF vn \in names THEN c ELSE @[vn]],
+                  !.stamp = [vn \in VarNames |-> IF vn \in names THEN st.it ELSE @[vn]]]
+
+Step(st, ev, o) ==
+    CASE ev.k = "e" -> AfterEval(st, ev, o.nodes[ev.n])
+      [] ev.k = "s" -> AfterStore(st, o.stores[ev.site])
+      [] ev.k = "le" -> [st EXCEPT !.it[ev.loop] = 0]
+      [] ev.k = "it" -> [st EXCEPT !.it[ev.loop] = @ + 1]
+      [] ev.k = "lx" -> [st EXCEPT !.it[ev.loop] = 0]
+      \* Match statement ev.loop, which the checker found exhaustive (observed: visit_Match put LEAVES_SCOPE into the scope
+      \* of the block that contains the statement instead of a scope of its own), is being executed (xs) / one of its
+      \* cases matched (xm) / the end of the block containing it was reached (xb).  If a case matched, the checker's
+      \* belief "no fall-through" was right for this execution, but it dropped the whole block from the merge that
+      \* follows: the state it continues with describes the other paths only.
+      [] ev.k = "xs" -> [st EXCEPT !.matched = @ \ {ev.loop}]
+      [] ev.k = "xm" -> [st EXCEPT !.matched = @ \cup {ev.loop}]
+      [] ev.k = "xb" -> IF ev.loop \in st.matched
+                        THEN [st EXCEPT !.taint = [vn \in VarNames |-> @[vn] \cup {KeyMatchLeaves}]]
+                        ELSE st
+
+\* verdict for the unsound judged event ev (index i); st = state after the event's own sources were applied
+Classify(tid, i, st, ev, nd) ==
+    LET tn == NodeTaint(st, nd, ev.n)
+    IN IF KeyRejected \in tn THEN Say(tid, "dom:" \o KeyRejected \o ":" \o ToString(i))
+       ELSE IF KeyCrossEq \in tn /\ ContainsNumeric(ev.v) THEN Say(tid, "dom:" \o KeyCrossEq \o ":" \o ToString(i))
+       ELSE IF KeyNumeric \in tn /\ ContainsNumeric(ev.v) THEN Say(tid, "dev:" \o KeyNumeric \o ":" \o ToString(i))
+       ELSE IF Dev_LoopCarried(st, SeqToSet(nd.r)) THEN Say(tid, "dev:" \o KeyLoop \o ":" \o ToString(i))
+       ELSE IF KeyTupleAdd \in tn THEN Say(tid, "dev:" \o KeyTupleAdd \o ":" \o ToString(i))
+       ELSE IF KeyMatchLeaves \in tn THEN Say(tid, "dev:" \o KeyMatchLeaves \o ":" \o ToString(i))
+       ELSE IF ev.i = Never THEN Say(tid, "viol:NeverIsNeverReached:" \o ToString(i))
+       ELSE Say(tid, "viol:Sound:" \o ToString(i))
+
+RECURSIVE Fold(_, _, _)
+Fold(o, i, st) ==
+    IF i > Len(o.ev) THEN TRUE
+    ELSE LET ev == o.ev[i]
+             st2 == Step(st, ev, o)
+         IN /\ IF ev.k = "e" /\ ev.j /\ ~Sound(ev) THEN Classify(o.tid, i, st2, ev, o.nodes[ev.n]) ELSE TRUE
+            /\ Fold(o, i + 1, st2)
+
+AllSound(o) == \A i \in 1..Len(o.ev) : o.ev[i].k = "e" /\ o.ev[i].j => Sound(o.ev[i])
+JudgePairs(o) == \A i \in 1..Len(o.pairs) :
+                    IF Member(o.pairs[i][2], o.pairs[i][3]) THEN TRUE ELSE Say(o.tid, "unsound:" \o ToString(o.pairs[i][1]))
+\* the mechanism replay is only needed for executions with an unsound event
+Judge(o) == IF "pairs" \in DOMAIN o THEN JudgePairs(o)
+            ELSE IF AllSound(o) THEN Say(o.tid, "allsound") ELSE Fold(o, 1, St0(Len(o.nodes)))
 
 TInit == l = 1 /\ MInit
 TNext == l <= Len(Obs) /\ Judge(Obs[l]) /\ l' = l + 1 /\ UNCHANGED mvars
